@@ -168,13 +168,8 @@ def h_fault_reading(fault: int, first_use: bool, nv: int, x: int) -> bool:
     return _check_after(p, r, committed, []) and MON["bad"] == 0
 
 
-def h_failed_then_others(kind: int, nother: int, first_use: bool, bufsel: int, nfail: int) -> bool:
-    """
-    A failing writing session on a long-lived handle, then 0-3 records written through a second handle, then the first handle again:
-    its sessions list exactly the records of completed sessions (its own and the other handle's) and read each of them
-    pre: 0 <= kind <= 2 and 0 <= nother <= 3 and 0 <= bufsel <= 1 and 1 <= nfail <= 2
-    post: _
-    """
+def scn_failed_then_others(kind, nother, first_use, bufsel, nfail):
+    """plain scenario (no contract: C02 uses it too): a failing writing session on a long-lived handle, then records through a second handle, then the first handle again"""
     p = new_path()
     a = Collection(p, UkvCollectionBackend, _enc, None, readonly=False, bufsize=(-1 if bufsel == 0 else 150))
     done = []
@@ -222,6 +217,129 @@ def h_failed_then_others(kind: int, nother: int, first_use: bool, bufsel: int, n
             return False
     with a.reading():
         if not same_elems(list(a.keys()), [k for k, _ in done]):
+            return False
+    return lock_state(p) == (0, 0)
+
+
+def h_failed_then_others(kind: int, nother: int, first_use: bool, bufsel: int, nfail: int) -> bool:
+    """
+    A failing writing session on a long-lived handle, then 0-3 records written through a second handle, then the first handle again:
+    its sessions list exactly the records of completed sessions (its own and the other handle's) and read each of them
+    pre: 0 <= kind <= 2 and 0 <= nother <= 3 and 0 <= bufsel <= 1 and 1 <= nfail <= 2
+    post: _
+    """
+    return scn_failed_then_others(kind, nother, first_use, bufsel, nfail)
+
+
+# ---- another process between two environment calls of a constructor / session begin -------------------------------------------------------
+OTHER_SRC = ("import sys\nfrom molli.storage import Collection, UkvCollectionBackend\n"
+             "c = Collection(sys.argv[1], UkvCollectionBackend, readonly=False)\n"
+             "with c.writing():\n    c._backend.put('b0', b'vb')\nprint('done')\n")
+
+
+class _RealHooks:
+    """real replay: the hooks sit on the real pathlib / fasteners calls of this process; the other process IS another process (started at the k-th
+    call; if it cannot get the fcntl lock within 3 s it was not enabled there and is killed)"""
+    n, at, fn = 0, -1, None
+
+    @classmethod
+    def call(cls):
+        if cls.fn is None:
+            return
+        cls.n += 1
+        if cls.n == cls.at:
+            f, cls.fn = cls.fn, None
+            f()
+
+
+def _install_real_hooks():
+    import fasteners
+    if getattr(B, "_verif_hooked", False):
+        return
+    P = B.Path
+
+    class HookPath(P):
+        def is_file(self):
+            _RealHooks.call()
+            return super().is_file()
+
+        def exists(self):
+            _RealHooks.call()
+            return super().exists()
+
+        def open(self, *a, **k):
+            _RealHooks.call()
+            return super().open(*a, **k)
+
+    class HookLock(fasteners.InterProcessReaderWriterLock):
+        def acquire_write_lock(self, *a, **k):
+            _RealHooks.call()
+            return super().acquire_write_lock(*a, **k)
+
+        def acquire_read_lock(self, *a, **k):
+            _RealHooks.call()
+            return super().acquire_read_lock(*a, **k)
+    B.Path = U.Path = C.Path = HookPath
+    B.InterProcessReaderWriterLock = HookLock
+    B._verif_hooked = True
+
+
+def h_other_process(k: int, with_session: bool) -> bool:
+    """
+    a second PROCESS opens the same not-yet-existing library and completes a writing session between two environment calls (file test, open, lock
+    acquisition) of this process's constructor (and first session begin), wherever the lock lets it in; afterwards both processes' completed
+    sessions are in the file: the k-th call is symbolic
+    pre: 1 <= k <= 14
+    post: _
+    """
+    p = new_path()
+    if REAL and os.path.exists(p):
+        os.remove(p)
+    ran = [False]
+    if REAL:
+        _install_real_hooks()
+        import subprocess, sys
+
+        def other():
+            try:
+                r = subprocess.run([sys.executable, "-c", OTHER_SRC, str(p)], capture_output=True, text=True, timeout=3, env=dict(os.environ))
+                ran[0] = r.returncode == 0 and "done" in r.stdout
+            except subprocess.TimeoutExpired:
+                pass
+        _RealHooks.n, _RealHooks.at, _RealHooks.fn = 0, int(k), other
+    else:
+        def other():
+            try:
+                cb = Collection(p, UkvCollectionBackend, readonly=False)
+                with cb.writing():
+                    cb["b0"] = b"vb"
+                ran[0] = True
+            except (RuntimeError, TimeoutError):
+                pass                                  # the lock is held by this process: the other one waits
+        E.Preempt.arm(k, other)
+    try:
+        ca = Collection(p, UkvCollectionBackend, readonly=False)
+        if with_session:
+            with ca.writing():
+                ca["a0"] = b"va"
+    finally:
+        if REAL:
+            _RealHooks.fn = None
+        else:
+            E.Preempt.off()
+    if not ran[0]:
+        other()                                       # it gets its turn once this process is out of the way
+        if not ran[0]:
+            return False
+    if not with_session:
+        with ca.writing():
+            ca["a0"] = b"va"
+    r = Collection(p, UkvCollectionBackend, readonly=True)
+    with r.reading():
+        if not same_elems(list(r.keys()), ["a0", "b0"]) or r["a0"] != b"va" or r["b0"] != b"vb":
+            return False                              # a record of a completed session was lost or altered
+    with ca.reading():
+        if not same_elems(list(ca.keys()), ["a0", "b0"]):
             return False
     return lock_state(p) == (0, 0)
 
@@ -419,7 +537,7 @@ def run(rep, tier):
     rep.assumptions = ["RWLock model = per-path reader/writer counters, acquire on a busy lock returns False (fasteners' timeout behaviour)",
                        "an injected I/O fault raises OSError from stream.write/close or Path.open"]
     specs = [{"fn": "h_fault_writing", "timeout": 300, "split": f} for f in range(len(FAULTS))]
-    specs += [{"fn": "h_fault_reading", "timeout": 300}, {"fn": "h_lock_identity", "timeout": 300}, {"fn": "h_failed_then_others", "timeout": 300}]
+    specs += [{"fn": "h_fault_reading", "timeout": 300}, {"fn": "h_lock_identity", "timeout": 300}, {"fn": "h_failed_then_others", "timeout": 300}, {"fn": "h_other_process", "timeout": 300}]
     specs += [{"fn": "h_sessions_exclusive", "timeout": 300, "split": s} for s in range(8)]
     xh.run_obligations(rep, "harness.C04", specs)
     xh.known_witness(rep, "harness.C04")
